@@ -84,4 +84,30 @@ theorem C19_ownership :
 #print axioms C19_facts
 #print axioms C19_ownership
 
+/-- **C19 (the five functions are the pipelines the model composes).**  Read from the current source: every
+reader is `with open_file(f) as f: obj = <parse>(f …)` followed by `from_data(obj, ty …)` (`from_yaml_all`:
+the list of ALL documents, unfiltered, converted as `List[ty]`); every writer is
+`with open_file(f, 'w') as f: <dump>(into_data(obj, ty, custom=custom), f, …)` with every formatting option
+forwarded under its own name and nothing else in the `with` body.  So `readDoc` / `readAllDocs` /
+`writeDoc` are what the functions do, given the codec. -/
+theorem C19_pipeline_facts :
+    Facts.ioPipelines =
+      [("from_json", "open_file", "r", "json.load", "f", [], "from_data(obj, ty, custom=custom)", 0),
+       ("from_yaml", "open_file", "r", "yaml.load", "f", [], "from_data(obj, ty, custom=custom)", 0),
+       ("from_yaml_all", "open_file", "r", "yaml.load_all+list", "f", [], "from_data(obj, t.List[ty], custom=custom)", 0),
+       ("write_json", "open_file", "w", "json.dump", "into_data(obj, ty, custom=custom)", ["indent", "sort_keys"], "", 0),
+       ("write_yaml", "open_file", "w", "yaml.dump", "into_data(obj, ty, custom=custom)",
+         ["Dumper", "allow_unicode", "default_flow_style", "default_style", "explicit_end", "explicit_start", "indent",
+          "sort_keys", "width"], "", 0)] := by rfl
+
+/-- the dataclass convenience methods (string and file variants) delegate to those five functions -/
+theorem C19_method_facts :
+    Facts.ioMethodDelegates =
+      [("from_json", ["io.from_json"]), ("from_yaml", ["io.from_yaml"]), ("from_yaml_all", ["io.from_yaml_all"]),
+       ("from_yamls", ["io.from_yaml"]), ("from_jsons", ["io.from_json"]), ("write_json", ["io.write_json"]),
+       ("write_yaml", ["io.write_yaml"])] := by decide
+
+#print axioms C19_pipeline_facts
+#print axioms C19_method_facts
+
 end PaneModel
